@@ -341,6 +341,25 @@ func Check(c Case) (v vcase.Verdict) {
 		// Get on every flattened field
 		flat := p.FlattenedFields()
 		top := p.Fields()
+		// FlattenedFields is Fields with every tuple field replaced by its sub-fields, in order
+		var flatRef []*benchproc.Field
+		for _, f := range top {
+			if f.IsTuple {
+				flatRef = append(flatRef, f.Sub...)
+			} else {
+				flatRef = append(flatRef, f)
+			}
+		}
+		if len(flat) != len(flatRef) {
+			v.Failf("projection %q: FlattenedFields has %d fields, Fields (tuples expanded) has %d", exprText(e), len(flat), len(flatRef))
+			return
+		}
+		for i := range flat {
+			if flat[i] != flatRef[i] {
+				v.Failf("projection %q: FlattenedFields[%d] is %q, Fields (tuples expanded) has %q there", exprText(e), i, flat[i].Name, flatRef[i].Name)
+				return
+			}
+		}
 		for i, k := range keys {
 			for _, f := range top {
 				if f.IsTuple {
@@ -382,7 +401,6 @@ func Check(c Case) (v vcase.Verdict) {
 				}
 			}
 		}
-		_ = flat
 		// ProjectValues: .unit varies, everything else as Project
 		if ei == c.UnitExpr {
 			for i, vk := range A.vkeys {
@@ -412,7 +430,7 @@ func Check(c Case) (v vcase.Verdict) {
 		for _, f := range ns {
 			gotNS[f.Name] = true
 		}
-		for _, f := range p.FlattenedFields() {
+		for _, f := range flatRef {
 			differs := false
 			for i := 1; i < len(keys); i++ {
 				if keys[i].Get(f) != keys[0].Get(f) {
@@ -588,7 +606,7 @@ var valPool = []string{"linux", "darwin", "1", "2", "abc", "x y", "é", "12", "2
 
 func genName(t *rapid.T, arbitrary bool) string {
 	if arbitrary && vcase.OneIn(t, 6, "arbname") {
-		return rapid.SampledFrom([]string{"A/size=1/size=2", "A/gomaxprocs=2-4", "A//", "A/=x", "A/size=", "-4", "A/size=1/x/size=3-2", "/kind=a", ""}).Draw(t, "weird")
+		return rapid.SampledFrom([]string{"A/size=1/size=2", "A/gomaxprocs=2-4", "A//", "A/=x", "A/size=", "-4", "A/size=1/x/size=3-2", "/kind=a", "", "Trim-", "Trim", "Join/sep=-", "Join/sep=", "Trim--8", "Trim-8"}).Draw(t, "weird")
 	}
 	n := rapid.SampledFrom([]string{"Foo", "Bar", "Baz/pos", "Merge-Sort", "Baz/type=big-endian", "X-1/pos"}).Draw(t, "base")
 	if rapid.Bool().Draw(t, "hs") {
@@ -603,7 +621,7 @@ func genName(t *rapid.T, arbitrary bool) string {
 	}
 	switch rapid.IntRange(0, 3).Draw(t, "gmp") {
 	case 0:
-		n += "-" + rapid.SampledFrom([]string{"1", "4", "8"}).Draw(t, "procs")
+		n += "-" + rapid.SampledFrom([]string{"1", "4", "8", "9", "96", "192"}).Draw(t, "procs")
 	case 1:
 		if vcase.OneIn(t, 3, "explicitgmp") {
 			n += "/gomaxprocs=" + rapid.SampledFrom([]string{"1", "4"}).Draw(t, "eprocs")
